@@ -2993,6 +2993,11 @@ pub struct VerifState {
 
 #[cfg(feature = "llg_verif")]
 impl Parser {
+    /// contents of the (possibly shared) lexer state table, indexed by `StateID::as_usize()`
+    pub fn verif_lexer_table(&self) -> Vec<Vec<u32>> {
+        self.shared.lock().unwrap().lexer().dfa.verif_state_table()
+    }
+
     pub fn verif_state(&self) -> VerifState {
         let s = &self.state;
         let num_rows = s.num_rows();
